@@ -32,6 +32,22 @@ theorem accessor_independent (k : MaskKind) (w w' : UInt32)
     k.first w = k.first w' ∧ k.second w = k.second w' := by
   cases k <;> simp [MaskKind.first, MaskKind.second, h6, h7]
 
+/-- … accessor by accessor: each reads one bit (6 or 7, the two accessors of a kind different ones) and agrees on any
+    two words that agree on that one bit — the other 31 bits, its sibling's included, do not matter to it -/
+theorem accessor_own_bit (k : MaskKind) :
+    ∃ i j : Nat, i ≠ j ∧ (i = 6 ∨ i = 7) ∧ (j = 6 ∨ j = 7) ∧
+      (∀ w w' : UInt32, bit32 w i = bit32 w' i → k.first w = k.first w') ∧
+      (∀ w w' : UInt32, bit32 w j = bit32 w' j → k.second w = k.second w') := by
+  cases k
+  · exact ⟨6, 7, by decide, .inl rfl, .inr rfl, fun w w' h => by simp [MaskKind.first, h],
+      fun w w' h => by simp [MaskKind.second, h]⟩
+  · exact ⟨7, 6, by decide, .inr rfl, .inl rfl, fun w w' h => by simp [MaskKind.first, h],
+      fun w w' h => by simp [MaskKind.second, h]⟩
+  · exact ⟨6, 7, by decide, .inl rfl, .inr rfl, fun w w' h => by simp [MaskKind.first, h],
+      fun w w' h => by simp [MaskKind.second, h]⟩
+  · exact ⟨6, 7, by decide, .inl rfl, .inr rfl, fun w w' h => by simp [MaskKind.first, h],
+      fun w w' h => by simp [MaskKind.second, h]⟩
+
 /-! non-vacuity and the pinned-tree defect D7: the pre-fix constructor put digital at bit 6 -/
 example : MaskKind.bearerCapabilities.new true false = 128 := by decide
 def pinnedBearerNew (digital analog : Bool) : UInt32 := UInt32.ofNat (b2n digital * 64 + b2n analog * 128)
